@@ -29,7 +29,8 @@ DESCRIPTION = {
         "inputs = corpus harvested from the repository's own tests (sql, dialect, metadata, config as the tests build them) + bundled "
         "TPC-DS queries + generated multi-statement scripts (with and without metadata) + shapes with several equal-rank candidates in "
         "one set (many unqualified columns over several relations, wildcard over several known tables with disjoint columns, DROP/RENAME "
-        "mixes, multi-pair RENAME); each input is observed in H zygotes with different PYTHONHASHSEED (4 quick / 32 thorough, derived "
+        "mixes, multi-pair RENAME, CTE shapes, lateral column alias chains with the LATERAL_COLUMN_ALIAS_REFERENCE knob on) + cross-dialect warm inputs "
+        "(the same text analysed under another dialect / T-SQL split mode earlier in the process); each input is observed in H zygotes with different PYTHONHASHSEED (4 quick / 32 thorough, derived "
         "from VERIF_SEED, always including 0) x 2 fresh forks, one with the canonical accessor order and one with a seeded permutation "
         "with repetitions of all 13 accessors, plus one *warm-process* world per input in which other scripts (a sibling over the same names, "
         "the two neighbouring corpus inputs, sometimes the script itself) are analysed first in the same process; all canonical answers must agree (modulo subquery_<int>). An input counts as one case; it "
